@@ -122,3 +122,23 @@ m("c06-mse-drop-factor-two", ["C06"], ND, "        mse = var_y + coefs_xs @ cov 
 m("c06-coefs-sorted-fill", ["C06"], ND, "            coefs[Xs] = np.linalg.solve(cov_xs, cov_y_xs)", "            coefs[np.sort(Xs)] = np.linalg.solve(cov_xs, cov_y_xs)", note="needs S given in non-increasing order")
 m("c06-regress-drops-first", ["C06"], ND, "        Xs = np.atleast_1d(Xs)\n        if len(Xs) > 0:", "        Xs = np.atleast_1d(Xs)\n        Xs = Xs[1:] if len(Xs) > 3 else Xs\n        if len(Xs) > 0:")
 m("c06-mse-abs", ["C06"], ND, "        return mse\n", "        return abs(mse) + 1e-9\n")
+
+# ---- C11
+GEN = "sempler/generators.py"
+m("c11-ordering-is-permutation", ["C11"], GEN, "        return (W[permutation, :][:, permutation], np.argsort(permutation))\n    else:\n        return W[permutation, :][:, permutation]\n\n\ndef dag_full",
+  "        return (W[permutation, :][:, permutation], permutation)\n    else:\n        return W[permutation, :][:, permutation]\n\n\ndef dag_full")
+m("c11-half-probability", ["C11"], GEN, "    prob = k / (p - 1)", "    prob = k / (2 * (p - 1))")
+m("c11-no-relabelling", ["C11"], GEN, "    permutation = rng.permutation(p)\n    # Note the actual topological ordering is the \"conjugate\" of permutation eg. [3,1,2] -> [2,3,1]\n    print(",
+  "    permutation = np.arange(p)\n    # Note the actual topological ordering is the \"conjugate\" of permutation eg. [3,1,2] -> [2,3,1]\n    print(")
+m("c11-triu-k0", ["C11"], GEN, "    A = np.triu(A, k=1)\n    weights", "    A = np.triu(A, k=0)\n    weights")
+m("c11-weights-from-zero", ["C11"], GEN, "    weights = rng.uniform(w_min, w_max, size=A.shape)\n    W = A * weights\n\n", "    weights = rng.uniform(min(w_min, 0), w_max, size=A.shape)\n    W = A * weights\n\n")
+m("c11-ordering-different-stream", ["C11"], GEN, "    if return_ordering:\n        return (W[permutation, :][:, permutation], np.argsort(permutation))\n    else:\n        return W[permutation, :][:, permutation]\n\n\ndef intervention_targets",
+  "    if return_ordering:\n        permutation = permutation[::-1]\n        return (W[permutation, :][:, permutation], np.argsort(permutation))\n    else:\n        return W[permutation, :][:, permutation]\n\n\ndef intervention_targets", note="dag_full: valid DAG+ordering but a different matrix when the ordering is requested")
+m("c11-correlated-edges", ["C11"], GEN, "    A = rng.uniform(size=(p, p))\n    A = (A <= prob).astype(float)", "    A = rng.uniform(size=(p, 1)) * np.ones((1, p))\n    A = (A <= prob).astype(float)", note="right marginal edge probability, edges of one node perfectly dependent")
+
+# ---- C12
+m("c12-exclusive-upper-size", ["C12"], GEN, "        sizes = rng.integers(size[0], size[1] + 1, K)", "        sizes = rng.integers(size[0], max(size[1], size[0] + 1), K)")
+m("c12-feasibility-ge", ["C12"], GEN, "        if max_size * K > p:", "        if max_size * K >= p:")
+m("c12-replace-within-intervention", ["C12"], GEN, "            intervention = list(rng.choice(targets, size=sizes[i], replace=False))", "            intervention = list(rng.choice(targets, size=sizes[i], replace=sizes[i] > 2))")
+m("c12-pool-not-shrunk", ["C12"], GEN, "            remaining_targets -= set(intervention)\n", "            remaining_targets -= set(intervention[:1])\n")
+m("c12-max-size-check-dropped", ["C12"], GEN, "    if max_size > p:", "    if max_size > p and replace:")
